@@ -44,6 +44,7 @@ def main():
     tier = a.tier if a.tier in ("quick", "thorough") else "quick"
     seed = int(os.environ.get("VERIF_SEED", "0") or 0)
     ctx = common.Ctx(a.pid, tier, seed, a.replay)
+    ctx.no_proof = a.no_proof  # development runs without the proof step never overwrite the committed evidence
     mod = importlib.import_module("props.%s" % a.pid)
     try:
         import pyoma2  # noqa: F401
